@@ -229,10 +229,9 @@ class Judge:
             if clause in ("RecorderInconsistent", "Incomplete"):
                 self.machinery.append(f"trace {clause} at event {pos}: {json.dumps(sc)[:400]}")
             elif clause != "ok":
-                if len(self.bad) < 200:
-                    self.bad.append((clause, pos, sc, facts_of(sc, r["events"], clause), r["events"][:pos]))
-                else:
-                    self.bad.append((clause, pos, sc, facts_of(sc, r["events"], clause), None))
+                # kept as one string each (see add): thousands of known-finding traces must not slow gc.collect()
+                prefix = r["events"][:pos] if len(self.bad) < 200 else None
+                self.bad.append(json.dumps([clause, pos, sc, facts_of(sc, r["events"], clause), prefix]))
             elif withexp and any(st.get("dev") for st in sc["steps"]):
                 # the history passes a point where a recorded deviation (D14) changes what follows: the Model's
                 # expectations describe the repaired design there; only the Rules verdict applies
@@ -441,7 +440,7 @@ def _absorb(rep, findings, outs, counters):
             rep.sample(s, cap=4)
         for d in o["drift"]:
             rep.drift.append(d)
-        for clause, pos, sc, facts, prefix in o["bad"]:
+        for clause, pos, sc, facts, prefix in map(json.loads, o["bad"]):
             f = known.match(findings, facts)
             if f is not None:
                 rep.known.append((f["id"], f["what"]))
